@@ -2,8 +2,6 @@
 package main
 
 import (
-	"runtime/debug"
-	"runtime/pprof"
 	"crypto/sha1"
 	"encoding/json"
 	"flag"
@@ -11,6 +9,8 @@ import (
 	"os"
 	"path/filepath"
 	"runtime"
+	"runtime/debug"
+	"runtime/pprof"
 	"sort"
 	"strconv"
 	"strings"
